@@ -84,7 +84,7 @@ def shown(enc):
 def run(tier):
     rep = Report("C18", tier)
     s = seed()
-    n = 150 if tier == "quick" else 3000
+    n = 150 if tier == "quick" else common.tscale(3000)
     flavors = ["dbg"] if tier == "quick" else ["dbg", "rel"]
     progs = []
     for i in range(n):
